@@ -253,6 +253,7 @@ func (vc *VC) allocObject(st *State, t types.Type, hint string) Val {
 }
 
 func (vc *VC) zeroElems(st *State, r *Term, et types.Type) {
+	defer vc.withTouch(r)()
 	for _, l := range leaves(et) {
 		key := "E$" + typeKey(et) + l.Path
 		s := SArr(SRef, SArr(SInt, l.Sort))
@@ -639,7 +640,9 @@ func (vc *VC) strToBytes(st *State, s *Term) Val {
 	srt := SArr(SRef, SArr(SInt, SInt))
 	arr := vc.famGet(st, key, srt)
 	content := mkApp("strbytes", SArr(SInt, SInt), s)
+	restore := vc.withTouch(r)
 	vc.famSet(st, key, mkStore(arr, r, content))
+	restore()
 	n := vc.strlen(s)
 	vc.assume(st, mkCmp(">=", n, mkInt(0)))
 	vc.assume(st, mkEq(mkApp("bstr", SStr, content, mkInt(0), n), s))
@@ -735,6 +738,7 @@ func (vc *VC) mapValLeaf(st *State, mt *types.Map, m *Term, l Leaf) (string, *Te
 }
 
 func (vc *VC) initMap(st *State, r *Term, mt *types.Map) {
+	defer vc.withTouch(r)()
 	ks := leafSort(mt.Key())
 	if _, ok := isStruct(mt.Key()); ok {
 		panic(unsupported("map with struct key"))
@@ -747,6 +751,7 @@ func (vc *VC) initMap(st *State, r *Term, mt *types.Map) {
 }
 
 func (vc *VC) mapStore(st *State, m *Term, mt *types.Map, k *Term, v Val) {
+	defer vc.withTouch(m)()
 	ks := leafSort(mt.Key())
 	dk, lk := mapKeys(mt)
 	dsort := SArr(SRef, SArr(ks, SBool))
@@ -763,6 +768,7 @@ func (vc *VC) mapStore(st *State, m *Term, mt *types.Map, k *Term, v Val) {
 }
 
 func (vc *VC) mapDelete(st *State, m *Term, mt *types.Map, k *Term) {
+	defer vc.withTouch(m)()
 	ks := leafSort(mt.Key())
 	dk, lk := mapKeys(mt)
 	d := vc.famGet(st, dk, SArr(SRef, SArr(ks, SBool)))
